@@ -63,11 +63,14 @@ def check(rec, gname, ordered=False):
               smearing_subsamples=max(sig["smear"], 1))
     raised = False
     for r, sel in enumerate(rec["sels"]):
-        sub = select(c, sel)
         calls[0] = 0
         armed[0] = (r == len(rec["sels"]) - 1)
         try:
-            sub.add_signal(path_wrapped, tp, fprof, bp, **kw)
+            if sel == "direct":
+                for f in frames:                      # every frame on its own, with its own time axis
+                    f.add_signal(path_wrapped, tp, fprof, bp, **kw)
+            else:
+                select(c, sel).add_signal(path_wrapped, tp, fprof, bp, **kw)
         except (Boom, Abort):
             raised = True
         except Exception as e:
